@@ -333,6 +333,13 @@ def handle (args : List String) : String :=
         match pList 10000 term with
         | some (s, []) => "ok " ++ showInts (encode t (cStmt 0 0 s))
         | _ => "unsupported"
+      else if kind = "a" then
+        -- a pattern-action body: `Compile` adds a Nop when the statements compile to no instruction (`/a/ { { } }`)
+        match pList 10000 term with
+        | some (s, []) =>
+          let c := encode t (cStmt 0 0 s)
+          "ok " ++ showInts (if c.isEmpty then [opNum t.opcodes "Nop"] else c)
+        | _ => "unsupported"
       else
         match pExpr 10000 term with
         | some (e, []) => "ok " ++ showInts (encode t (cExpr e))
